@@ -73,19 +73,27 @@ def NumCheck.multPasses (c : NumCheck) (x : Rat) : Bool :=
     else
       decide (ratAbs (ratMod x m) ≤ (1 : Rat) / 10000000000)
 
+/-- `numericValidator.boundOf` (fix R11): the literal a bound is compared against. On an integer-typed field a
+    fractional bound is moved to the integer that admits the same integers: up for an inclusive minimum and an
+    exclusive maximum, down for an inclusive maximum and an exclusive minimum. -/
+def NumCheck.boundOf (c : NumCheck) (b : Rat) (upper exclusive : Bool) : Rat :=
+  if c.roundToInt then
+    (if upper == exclusive then ((b.ceil : Int) : Rat) else ((b.floor : Int) : Rat))
+  else b
+
 /-- emitted upper test `if b <[=] v { return err }` -/
 def NumCheck.hiPasses (c : NumCheck) (x : Rat) : Bool :=
   match normHi c.hi c.xhi with
   | (none, _) => true
-  | (some b, true) => !decide (c.valueOf b ≤ x)
-  | (some b, false) => !decide (c.valueOf b < x)
+  | (some b, true) => !decide (c.boundOf b true true ≤ x)
+  | (some b, false) => !decide (c.boundOf b true false < x)
 
 /-- emitted lower test `if b >[=] v { return err }` -/
 def NumCheck.loPasses (c : NumCheck) (x : Rat) : Bool :=
   match normLo c.lo c.xlo with
   | (none, _) => true
-  | (some b, true) => !decide (c.valueOf b ≥ x)
-  | (some b, false) => !decide (c.valueOf b > x)
+  | (some b, true) => !decide (c.boundOf b false true ≥ x)
+  | (some b, false) => !decide (c.boundOf b false false > x)
 
 /-- the whole emitted numeric validator on a present, non-nil value -/
 def NumCheck.passes (c : NumCheck) (x : Rat) : Bool :=
